@@ -32,6 +32,7 @@ class RefDeps:
             self.children.setdefault(fid, [])
         self.unresolved = []
         self.own = {fid: [] for fid in self.order}   # fid -> [(pred, kind, gap_s)]
+        self.gaplen = {fid: [] for fid in self.order}  # fid -> [(pred, working hours)]  (gaplength: 1d = 8h, 1w = 40h)
         for fid in self.order:
             t = self.node[fid]
             for d in t.get("deps") or []:
@@ -41,6 +42,9 @@ class RefDeps:
                     self.unresolved.append((fid, ref))
                 else:
                     self.own[fid].append((p, kind, gap))
+                    if isinstance(d, dict) and d.get("gaplen"):
+                        m = re.match(r"(\d+(?:\.\d+)?)(min|h|d|w)$", d["gaplen"])
+                        self.gaplen[fid].append((p, float(m.group(1)) * {"min": 1 / 60.0, "h": 1, "d": 8, "w": 40}[m.group(2)]))
             for d in t.get("prec") or []:
                 ref, gap, kind = self._parts(d)
                 p = self.resolve(fid, ref)
